@@ -17,6 +17,8 @@ package main
 
 import (
 	"fmt"
+	"go/token"
+	"path/filepath"
 	"go/types"
 	"sort"
 	"strings"
@@ -569,6 +571,135 @@ func init() {
 		for i := range er.records {
 			er.records[i].Kind = "gframe"
 			er.records[i].Func = strings.TrimPrefix(er.records[i].Name, "C20#gframe:")
+			er.records[i].Solver = "frame inference over go/ssa (no solver needed)"
+		}
+		return er
+	}
+}
+
+// fieldframe:C13 — frame over one field of one type, for the whole module: the negotiated / enforced protocol
+// version of a client (kmipclient.Client.version) is assigned only by negotiateVersion (under contract), from the
+// enforced-version option when a client is built, or as a copy of the version of the client being cloned; its
+// address never escapes and nothing is stored through it. With this frame the contract of negotiateVersion
+// ("a version that is already set is the enforced one and is left alone") carries over to every client.
+func init() {
+	extraCheckers["fieldframe:C13"] = func(pc *PropConfig, l *Loaded, tier string, seed int, replayDir string) extraResult {
+		mod := "github.com/ovh/kmip-go"
+		funcs := allFunctions(l.prog, mod)
+		isClientVersion := func(fa *ssa.FieldAddr) bool {
+			pt, ok := fa.X.Type().Underlying().(*types.Pointer)
+			if !ok {
+				return false
+			}
+			named, ok := pt.Elem().(*types.Named)
+			if !ok || named.Obj().Pkg() == nil || named.Obj().Pkg().Path() != mod+"/kmipclient" || named.Obj().Name() != "Client" {
+				return false
+			}
+			st, ok := named.Underlying().(*types.Struct)
+			return ok && st.Field(fa.Field).Name() == "version"
+		}
+		fieldLoad := func(v ssa.Value, field string) bool {
+			u, ok := v.(*ssa.UnOp)
+			if !ok || u.Op != token.MUL {
+				return false
+			}
+			fa, ok := u.X.(*ssa.FieldAddr)
+			if !ok {
+				return false
+			}
+			pt, ok := fa.X.Type().Underlying().(*types.Pointer)
+			if !ok {
+				return false
+			}
+			st, ok := pt.Elem().Underlying().(*types.Struct)
+			return ok && st.Field(fa.Field).Name() == field
+		}
+		classify := func(f *ssa.Function, v ssa.Value) string {
+			if relFuncName(f) == "(*kmipclient.Client).negotiateVersion" {
+				return "negotiation"
+			}
+			if fieldLoad(v, "enforceVersion") {
+				return "enforced-option"
+			}
+			if al, ok := v.(*ssa.Alloc); ok {
+				// a fresh copy of another client's version: the only store into the allocation is *src.version
+				var stores []*ssa.Store
+				other := false
+				for _, r := range *al.Referrers() {
+					switch r := r.(type) {
+					case *ssa.Store:
+						if r.Addr == al {
+							stores = append(stores, r)
+						} else if r.Val == al {
+							// stored as a field value (the site being classified)
+						} else {
+							other = true
+						}
+					case *ssa.DebugRef:
+					default:
+						other = true
+					}
+				}
+				if !other && len(stores) == 1 {
+					if u, ok := stores[0].Val.(*ssa.UnOp); ok && u.Op == token.MUL && fieldLoad(u.X, "version") {
+						return "clone-copy"
+					}
+				}
+			}
+			return ""
+		}
+		var obs []tableOb
+		sites := map[string]int{}
+		for _, f := range funcs {
+			if f.Pkg != nil && (strings.HasSuffix(f.Pkg.Pkg.Path(), "/kmiptest") || strings.HasSuffix(f.Pkg.Pkg.Path(), "/examples")) {
+				continue
+			}
+			for _, b := range f.Blocks {
+				for _, ins := range b.Instrs {
+					fa, ok := ins.(*ssa.FieldAddr)
+					if !ok || !isClientVersion(fa) {
+						continue
+					}
+					for _, r := range *fa.Referrers() {
+						pos := l.prog.Fset.Position(r.Pos())
+						where := fmt.Sprintf("%s:%d", filepath.Base(pos.Filename), pos.Line)
+						switch r := r.(type) {
+						case *ssa.Store:
+							if r.Addr != fa {
+								obs = append(obs, tableOb{name: "C13#fieldframe:" + relFuncName(f) + ":escape", ok: false, what: "the address of Client.version is stored at " + where})
+								continue
+							}
+							cl := classify(f, r.Val)
+							sites[cl]++
+							obs = append(obs, tableOb{name: fmt.Sprintf("C13#fieldframe:%s:store", relFuncName(f)), ok: cl != "",
+								what: fmt.Sprintf("%s assigns Client.version at %s with a value that is neither the enforced-version option, nor a copy of the cloned client's version, nor the result of negotiateVersion", relFuncName(f), where)})
+						case *ssa.UnOp:
+							// a load of the pointer: nothing may be stored through it
+							for _, r2 := range *r.Referrers() {
+								if s, ok := r2.(*ssa.Store); ok && s.Addr == r {
+									obs = append(obs, tableOb{name: "C13#fieldframe:" + relFuncName(f) + ":through", ok: false, what: "a store through Client.version at " + where + " (the version may be a shared constant such as kmip.V1_0)"})
+								}
+							}
+						case *ssa.DebugRef:
+						default:
+							obs = append(obs, tableOb{name: "C13#fieldframe:" + relFuncName(f) + ":escape", ok: false, what: fmt.Sprintf("the address of Client.version is used by %T at %s", r, where)})
+						}
+					}
+				}
+			}
+		}
+		// vacuity: the known write sites must have been seen
+		obs = append(obs, tableOb{name: "C13#fieldframe:sites", ok: sites["negotiation"] >= 2 && sites["enforced-option"] >= 1 && sites["clone-copy"] >= 1,
+			what: fmt.Sprintf("expected assignments of Client.version not found (negotiation %d, enforced option %d, clone copy %d): the frame would be vacuous", sites["negotiation"], sites["enforced-option"], sites["clone-copy"])})
+		er := tableResult(pc, obs, replayDir, []string{
+			"frame over the field kmipclient.Client.version: syntactic, over go/ssa of the whole module (every FieldAddr of that field and every use of it); reflection and unsafe are not considered",
+		})
+		for i := range er.violations {
+			er.violations[i] += " no-failing-input-found"
+		}
+		for i := range er.records {
+			er.records[i].Kind = "gframe"
+			er.records[i].Func = strings.TrimPrefix(er.records[i].Name, "C13#fieldframe:")
 			er.records[i].Solver = "frame inference over go/ssa (no solver needed)"
 		}
 		return er
